@@ -14,6 +14,11 @@ THEOREMS = [
     'Ndn.C18.local_is_max_bytes', 'Ndn.C18.callback_iff_raised_bytes', 'Ndn.C18.emits_are_local',
     'Ndn.C18.publish_emits_decodable', 'Ndn.C18.vector_received', 'Ndn.C18.emitted_vector_is_received',
     'Ndn.C18.encodeVector_fails_only_oversize', 'Ndn.C18.source_tables_pinned',
+    # well-formedness of the local vector is an invariant of the byte-level handler (decoder output is well-formed, C08.parse_wf)
+    'Ndn.Svs.decodeVector_entries_wf', 'Ndn.Svs.step_wfVec', 'Ndn.C18.local_wf_invariant', 'Ndn.C18.reachable_wf',
+    'Ndn.C18.reachable_step', 'Ndn.C18.vector_roundtrip_reachable', 'Ndn.C18.publish_emits_decodable_reachable',
+    'Ndn.C18.emitted_vector_is_received_reachable', 'Ndn.C18.timer_emits_decodable_reachable',
+    'Ndn.C18.encodeVector_reachable_fails_only_oversize',
 ]
 PARTIAL = {}
 TRUSTED = [
@@ -514,7 +519,11 @@ LEVEL_TEXT = ('Lean 4 theorems over a hand-written model of SvsInst (sync_handle
               'the handler on the bytes of the name component is the model on the decoded entries for every byte string, '
               'with the exact classes it catches (regenerated from the except clause) and those that propagate; what a node '
               'emits after publishing decodes at the peer to exactly its local vector; feeding node A\'s emitted bytes to '
-              'node B raises B\'s entries to at least A\'s. '
+              'node B raises B\'s entries to at least A\'s. Well-formedness of the local vector (node ids = encoded non-empty '
+              'names of single-TLV components, sequence numbers < 2^64) - the hypothesis of these encode-side theorems - is '
+              'proved to be an invariant over every history of arbitrary received bytes (< 2^64 long), publications and timer '
+              'expiries from start() (the decoder only delivers well-formed entries: C08.parse_wf), so the *_reachable '
+              'versions need no such hypothesis; the one bound left is own sequence number + 1 < 2^64 before a publication. '
               'The model is tied to the code on every run by differential execution of the compiled model against the real '
               'SvsInst on a virtual-time asyncio loop, plus the property oracle evaluated on the implementation.')
 LEVEL_NOTE = ('Proof is about the model; model=code is sampled (differential testing), not proved. Timer expiry is an abstract '
